@@ -46,6 +46,10 @@ func genCase(t *rapid.T) Case {
 		}
 	}
 	c := Case{H: gen.History{Schema: schema, MaxPointSize: 1 << 20, CacheLimit: rapid.SampledFrom([]int64{-1, -1, 0, 3000}).Draw(t, "cacheLimit")}}
+	if rapid.IntRange(0, 5).Draw(t, "highIds") == 0 {
+		// node ids around the boundaries of the graph search's visited-set size classes
+		c.H.FirstNodeId = gen.GenFirstNodeId(t, "firstNode")
+	}
 	g := gen.NewHistoryGen(t, schema, c.H.MaxPointSize, ho)
 	n := rapid.IntRange(1, ho.MaxSteps).Draw(t, "nsteps")
 	for i := 0; i < n; i++ {
